@@ -50,12 +50,17 @@ OrderOK(S, v, fuel) ==
 
 Canonical(b) == IsCompact(b) /\ OrderOK(sch.v, Parse(b).v, 20)
 
+(* views (env JVIEW): C06 asserts soundness (what the engine admits validates), C07 completeness (what validates, *)
+(* in canonical form, is admitted); "all" both.  An admitted text that does not validate is C06's business and  *)
+(* is not reported a second time under C07.                                                                     *)
+Sound == IOEnv.JVIEW \in {"all", "C06"}
+Complete == IOEnv.JVIEW \in {"all", "C07"}
 Event(r) ==
     CASE r.ev = "Compile" -> TRUE
-      [] r.ev = "Output" -> sch.ok /\ ValidText(r.b)
+      [] r.ev = "Output" -> sch.ok /\ (Sound => ValidText(r.b))
       [] r.ev = "Instance" ->
-            /\ r.acc = 1 => ValidText(r.b)
-            /\ (sch.exact /\ ValidText(r.b) /\ Canonical(r.b)) => r.acc = 1
+            /\ (Sound /\ r.acc = 1) => ValidText(r.b)
+            /\ (Complete /\ sch.exact /\ ValidText(r.b) /\ Canonical(r.b)) => r.acc = 1
       [] r.ev = "Check" -> sch.ok /\ (ValidText(r.b) = (r.valid = 1))
       [] OTHER -> FALSE
 
